@@ -15,6 +15,8 @@ import time
 import traceback
 
 VERIF = os.path.dirname(os.path.dirname(os.path.abspath(__file__)))
+# evidence goes to /verif/evidence; the override exists only so that development runs against seeded changes (dev_seeds.sh, scratch worktrees) do not overwrite it
+EVIDENCE_DIR = os.environ.get('LIANVC_EVIDENCE_DIR') or os.path.join(VERIF, 'evidence')
 sys.path.insert(0, VERIF)
 
 from lianvc import source, solve                      # noqa: E402
@@ -140,6 +142,8 @@ class FunctionResult:
         self.trusted = set()
         self.assumed = set()
         self.fn_hash = None
+        self.renamed_locals = {}
+        self.relooped = []
         self.gen_s = 0.0
         self.solve_s = 0.0
         self.n_loops = 0
@@ -162,6 +166,8 @@ def verify_function(reg, contract, timeout_ms, fn_ast=None, nproc=NPROC, stop_on
     try:
         ex = Exec(reg, contract, fn_ast=fn_ast, lenient=lenient)
         fr.fn_hash = source.func_hash(ex.fn)
+        fr.renamed_locals = dict(ex.renamed_locals)
+        fr.relooped = list(getattr(ex, 'relooped', []))
         vcs = ex.run()
         fr.paths = ex.paths
         fr.trusted = set(ex.used_trusted)
@@ -406,7 +412,9 @@ class Report:
                                            obligations=len([r for r in f.results if r['kind'] != 'cover']),
                                            discharged=len([r for r in f.results if r['kind'] != 'cover' and r['verdict'] == 'unsat']),
                                            error=(f.error[0] + ': ' + f.error[1][:200]) if f.error else None,
-                                           gen_s=round(f.gen_s, 2), solve_wall_s=round(f.solve_s, 2)) for f in self.functions],
+                                           gen_s=round(f.gen_s, 2), solve_wall_s=round(f.solve_s, 2),
+                                           **({'verified_modulo_renaming_of_locals': f.renamed_locals} if f.renamed_locals else {}),
+                                           **({'comprehensions_put_back_into_loop_form': f.relooped} if f.relooped else {})) for f in self.functions],
             discharged_by_backend=backends,
             solver_time_s=round(sum(r['time_s'] for r in obs), 2),
             vacuity=dict(requires_satisfiable=len([r for f in self.functions for r in f.results if r['kind'] == 'cover' and r['verdict'] == 'sat']),
@@ -427,7 +435,7 @@ class Report:
 
 
 def write_replay_file(pid, obligation, payload):
-    d = os.path.join(VERIF, 'evidence', 'replay', pid)
+    d = os.path.join(EVIDENCE_DIR, 'replay', pid)
     os.makedirs(d, exist_ok=True)
     safe = hashlib.sha1(obligation.encode()).hexdigest()[:10]
     nm = ''.join(ch if ch.isalnum() or ch in '._-' else '_' for ch in obligation)[-80:]
@@ -443,7 +451,7 @@ def run_property(modname, tier='quick', seed=0, rebaseline=False, only=None, can
     pid = module.PROPERTY
     rep = Report(pid, tier, seed)
     import shutil
-    shutil.rmtree(os.path.join(VERIF, 'evidence', 'replay', pid), ignore_errors=True)
+    shutil.rmtree(os.path.join(EVIDENCE_DIR, 'replay', pid), ignore_errors=True)
     timeout_ms = int(os.environ.get('LIANVC_VC_TIMEOUT_MS', '10000' if tier == 'quick' else '60000'))
     try:
         reg = module.build()
@@ -488,6 +496,16 @@ def run_property(modname, tier='quick', seed=0, rebaseline=False, only=None, can
         rep.trusted |= fr.trusted
         if fr.error:
             kind, text = fr.error
+            changed_fn = False
+            if kind == 'crash' and not rebaseline:
+                # a crash inside a specification / hook on a function whose source differs from the baseline means the sidecar contract no longer fits the code
+                # (a local or loop it names is gone): that is `contract out of date`, handled like a function outside the subset — never a checker fault
+                try:
+                    changed_fn = bool(bl0.get(c.name)) and bl0[c.name].get('ast_sha') != source.func_hash(source.load(c.file).function(c.qualname))
+                except source.SourceError:
+                    changed_fn = False
+                if changed_fn:
+                    kind, text = 'contract-out-of-date', 'the sidecar contract does not fit the changed function: ' + text.strip().splitlines()[-1][:200]
             if kind == 'crash':
                 rep.faults.append(f'{c.name}: {text[-600:]}')
             else:
@@ -538,6 +556,25 @@ def run_property(modname, tier='quick', seed=0, rebaseline=False, only=None, can
         bl[pid] = entry
         with open(os.path.join(VERIF, 'baseline_obligations.json'), 'w') as fh:
             json.dump(bl, fh, indent=1, sort_keys=True)
+        # header texts of the loops of every function under contract: loop specifications are keyed by ordinal, the engine re-aligns them by header when loops are
+        # added / removed later (engine.Exec._number_loops)
+        from .engine import loop_headers_of, fn_shape
+        lh_path = os.path.join(VERIF, 'loop_headers.json')
+        sh_path = os.path.join(VERIF, 'fn_shapes.json')
+        lh = load_json(lh_path, {})
+        shp = load_json(sh_path, {})
+        for c in under:
+            try:
+                fn_now = source.load(c.file).function(c.qualname)
+                lh[c.name] = loop_headers_of(fn_now)
+                sh = fn_shape(fn_now)
+                shp[c.name] = dict(shape=sh[0], names=sh[1], locals=sh[2])
+            except source.SourceError:
+                pass
+        with open(lh_path, 'w') as fh:
+            json.dump(lh, fh, indent=1, sort_keys=True)
+        with open(sh_path, 'w') as fh:
+            json.dump(shp, fh, indent=1, sort_keys=True)
     blp = bl.get(pid, {})
 
     # ---- classify failures ----------------------------------------------------------------------------------------
@@ -723,8 +760,8 @@ def finish(rep, module, code, msg=None):
     if msg:
         ev['coverage']['notes'].append(msg)
     ev['coverage']['exit_code'] = code
-    os.makedirs(os.path.join(VERIF, 'evidence'), exist_ok=True)
-    with open(os.path.join(VERIF, 'evidence', f'{rep.pid}.json'), 'w') as f:
+    os.makedirs(EVIDENCE_DIR, exist_ok=True)
+    with open(os.path.join(EVIDENCE_DIR, f'{rep.pid}.json'), 'w') as f:
         json.dump(ev, f, indent=1, default=str)
     for line in rep.known:
         print(line)
